@@ -246,14 +246,16 @@ class Pool(object):
     b.close()
     return {'p': p, 'conn': a, 'busy': None, 'since': 0.0, 'done_runs': 0}
 
-  def run(self, chunks, deadline, on_result):
-    """chunks: iterator of (stratum, start, count)."""
+  def run(self, chunks, deadline, on_result, stop_early=None):
+    """chunks: iterator of (stratum, start, count).  stop_early(): optional, no further chunk is handed out once it is true"""
     chunks = iter(chunks)
     pending = 0
     exhausted = False
     harness = []
     while True:
       now = time.time()
+      if stop_early is not None and not exhausted and stop_early():
+        exhausted = True
       for w in self.workers:
         if w['busy'] is None and not exhausted and now < deadline:
           try:
@@ -515,7 +517,9 @@ def run_check(pid, tier, base_seed=None, jobs=None, budget_s=None):
 
   pool = Pool(pid, tier, base_seed, jobs)
   try:
-    harness = pool.run(chunks(), t0 + budget_s, on_result)
+    # tooling (sweeps over seeded changes): stop handing out runs once a violation was seen
+    stop_early = (lambda: bool(agg['violations'])) if os.environ.get('VERIF_STOP_ON_VIOLATION') else None
+    harness = pool.run(chunks(), t0 + budget_s, on_result, stop_early)
   finally:
     pool.close()
   agg['harness'].extend(harness)
@@ -541,6 +545,8 @@ def run_check(pid, tier, base_seed=None, jobs=None, budget_s=None):
   for what in sorted(known_lines.keys()):
     print('KNOWN-FINDING: property=%s %s' % (pid, what))
   min_budget = plan.get('minimise_s', 45)
+  if os.environ.get('VERIF_NO_MINIMISE'):
+    min_budget = 0      # tooling: the replay file then holds the scenario as found
   replay_paths = []
   for key, rec, v in new[:4]:
     s2, d2, tries = minimise(check, rec['scenario'], rec['decisions'], key, rec['seed'], min_budget)
